@@ -1,6 +1,7 @@
 package p_mixer
 
 import (
+	"runtime"
 	"runtime/debug"
 	"sort"
 	"strings"
@@ -237,10 +238,223 @@ func TestC18Rapid(t *testing.T) {
 	})
 }
 
+// ---- sessions: histories of several merge trees (session.go) ----
+
+func recordSession(s Session, info SessionInfo) {
+	vstat.For(prop).Case(info.NonTrivial(), s.Hash(), func() any { return s }, info.Classes()...)
+}
+
+// judgeSession runs a session. A session is a complete history and its verdict must be a function of the
+// session alone (replay runs it in a fresh process), but the test process has executed other sessions before,
+// and package-level state of the library they left behind - if the library has any - belongs to a longer history.
+// So a failing session is run again after two garbage collections (they empty every sync.Pool and let
+// finalizers run) and only a failure that is still there is attributed to the session. If it is gone and
+// prev is given, the history prev+s is tried the same way and reported as a session of its own. What is
+// left (failed only in the used process) is counted in class session_failed_only_after_earlier_sessions.
+func judgeSession(s Session, prev *Session) (Session, SessionInfo, *vstat.Violation) {
+	info, v := RunSession(s)
+	if v == nil {
+		return s, info, nil
+	}
+	settle := func() { runtime.GC(); runtime.GC() }
+	settle()
+	if _, v2 := RunSession(s); v2 != nil {
+		return s, info, v2
+	}
+	if prev != nil && len(prev.Rounds)+len(s.Rounds) <= 32 {
+		both := Session{Rounds: append(append([]Round{}, prev.Rounds...), s.Rounds...)}
+		settle()
+		if _, v3 := RunSession(both); v3 != nil {
+			return both, info, v3
+		}
+	}
+	vstat.For(prop).Class("session_failed_only_after_earlier_sessions", 1)
+	settle()
+	return s, info, nil
+}
+
+// allShapes returns every merge tree over n leaves (leaves in order), as Shape strings.
+func allShapes(n int) []string {
+	var rec func(lo, hi int) []string
+	rec = func(lo, hi int) []string {
+		if hi-lo == 1 {
+			return []string{string(rune('a' + lo))}
+		}
+		var out []string
+		for mid := lo + 1; mid < hi; mid++ {
+			for _, l := range rec(lo, mid) {
+				for _, r := range rec(mid, hi) {
+					out = append(out, "("+l+r+")")
+				}
+			}
+		}
+		return out
+	}
+	out := rec(0, n)
+	for i, s := range out {
+		out[i] = s[1 : len(s)-1] // the root has no parentheses
+	}
+	return out
+}
+
+func genShape(t *rapid.T, lo, hi int) string {
+	if hi-lo == 1 {
+		return string(rune('a' + lo))
+	}
+	mid := rapid.IntRange(lo+1, hi-1).Draw(t, "split")
+	return "(" + genShape(t, lo, mid) + genShape(t, mid, hi) + ")"
+}
+
+func genProg(t *rapid.T, label string, maxLen, resetW int) string {
+	call := rapid.Custom(func(t *rapid.T) byte {
+		k := rapid.IntRange(0, 19+resetW).Draw(t, "call")
+		switch {
+		case k < 11:
+			return 'n'
+		case k < 20:
+			return 'h'
+		default:
+			return 'r'
+		}
+	})
+	return string(rapid.SliceOfN(call, 0, maxLen).Draw(t, label))
+}
+
+func genRound(t *rapid.T) Round {
+	r := Round{}
+	r.Sel = rapid.SampledFrom(Selectors).Draw(t, "sel")
+	n := rapid.SampledFrom([]int{2, 2, 3, 3, 3, 4, 4, 5, 6, 8}).Draw(t, "leaves")
+	s := genShape(t, 0, n)
+	r.Shape = s[1 : len(s)-1]
+	kinds := rapid.SampledFrom([]string{KSlice, KSlice, KSlice, KSlice, KSlice, KSlice, KDisparity, KDisparity, KNoReset})
+	for i := 0; i < n; i++ {
+		r.Kinds = append(r.Kinds, kinds.Draw(t, "kind"))
+		r.Leaves = append(r.Leaves, genSeq(t, "leaf", r.Sel))
+	}
+	r.NilEmpty = rapid.Bool().Draw(t, "nilEmpty")
+	resetW := rapid.SampledFrom([]int{0, 1, 3}).Draw(t, "resetWeight")
+	r.Prog = genProg(t, "prog", rapid.SampledFrom([]int{0, 4, 12, 60}).Draw(t, "maxProg"), resetW)
+	r.Hold = rapid.SampledFrom([]int{0, 0, 0, 1, 1, 2, 5}).Draw(t, "hold")
+	if r.Hold > 0 {
+		r.Late = genProg(t, "late", 12, resetW)
+	}
+	r.Partial = rapid.IntRange(0, 4).Draw(t, "partial") == 0
+	r.Close = rapid.SampledFrom(CloseDisciplines).Draw(t, "close")
+	return r
+}
+
+func genSession(t *rapid.T) Session {
+	n := rapid.SampledFrom([]int{1, 2, 2, 3, 3, 4, 6, 10}).Draw(t, "rounds")
+	return Session{Rounds: rapid.SliceOfN(rapid.Custom(genRound), n, n).Draw(t, "session")}
+}
+
+func TestC18RapidSessions(t *testing.T) {
+	st := vstat.For(prop)
+	rapid.Check(t, func(t *rapid.T) {
+		s := genSession(t)
+		s, info, v := judgeSession(s, nil)
+		st.Report(t, "TestC18RapidSessions", s, v)
+		recordSession(s, info)
+	})
+}
+
+// TestC18ExhaustiveSessions: every two-round history (earlier round, later round) with
+//   - earlier round: tree ab or (ab)c over the slice-backed inputs [1 2],[1 3],[2]; drained, abandoned untouched or
+//     abandoned after "hn"; each of the 4 close disciplines; closed before the later round is opened or kept open across it;
+//   - later round: every tree shape over 2, 3 and 4 slice-backed leaves x every assignment of the sequences
+//     over {1,2} of length 0..1 (thorough: 0..2 for 2 leaves) to the leaves x 5 selectors (quick tier, 4 leaves: <= and > only) x every program
+//     over {h,n,r} to depth 3 (thorough: 4 for 2 and 3 leaves); drained and closed through the root.
+func TestC18ExhaustiveSessions(t *testing.T) {
+	st := vstat.For(prop)
+	shard, shards := vstat.Shard()
+	var firsts []Round
+	for _, shape := range []string{"ab", "(ab)c"} {
+		leaves := [][]int{{1, 2}, {1, 3}, {2}}
+		kinds := []string{KSlice, KSlice, KSlice}
+		if shape == "ab" {
+			leaves, kinds = leaves[:2], kinds[:2]
+		}
+		for _, prog := range []string{"", "hn"} {
+			for _, partial := range []bool{false, true} {
+				if prog != "" && !partial {
+					continue // drained anyway: the program adds nothing to what is left behind
+				}
+				for _, cl := range CloseDisciplines {
+					for hold := 0; hold <= 1; hold++ {
+						firsts = append(firsts, Round{Leaves: leaves, Kinds: kinds, Shape: shape, Sel: "le", Prog: prog, Partial: partial, Close: cl, Hold: hold})
+					}
+				}
+			}
+		}
+	}
+	progs3, progs4 := allPrograms(3, 3), allPrograms(3, vstat.Pick(3, 4))
+	n, combo := int64(0), 0
+	prev := &Session{}
+	for leaves := 2; leaves <= 4; leaves++ {
+		maxLen, progs := 1, progs4
+		if vstat.Thorough() && leaves == 2 {
+			maxLen = 2
+		}
+		if leaves == 4 {
+			progs = progs3
+		}
+		seqs := allSeqs(2, maxLen)
+		kinds := []string{KSlice, KSlice, KSlice, KSlice}[:leaves]
+		for _, shape := range allShapes(leaves) {
+			enum.Lists(len(seqs), leaves, 0, 1, func(idx []int) {
+				if len(idx) != leaves {
+					return
+				}
+				combo++
+				if combo%shards != shard {
+					return
+				}
+				ls := make([][]int, leaves)
+				for i, e := range idx {
+					ls[i] = seqs[e]
+				}
+				sels := Selectors
+				if leaves == 4 && !vstat.Thorough() {
+					sels = []string{"le", "gt"}
+				}
+				for _, prog := range progs {
+					if t.Failed() {
+						return
+					}
+					for _, sel := range sels {
+						second := Round{Leaves: ls, Kinds: kinds, Shape: shape, Sel: sel, Prog: prog, Close: CloseRoot}
+						for _, first := range firsts {
+							s := Session{Rounds: []Round{first, second}}
+							rep, info, v := judgeSession(s, prev)
+							st.Report(t, "TestC18ExhaustiveSessions", rep, v)
+							recordSession(s, info)
+							*prev = s
+							n++
+							if v != nil {
+								return // one history is enough; every further failing one costs garbage collections
+							}
+						}
+					}
+				}
+			})
+		}
+	}
+	st.SetExhaustive("two_round_sessions", map[string]any{"earlier_rounds": len(firsts), "later_round_leaves": "2..4, every tree shape",
+		"later_round_programs": len(progs4), "later_round_programs_4_leaves": len(progs3), "selectors": len(Selectors), "cases_this_shard": n, "shards": shards})
+}
+
 func TestReplay(t *testing.T) {
 	p := vstat.ReplayPath()
 	if p == "" {
 		t.Skip("no replay requested")
+	}
+	// a session replay is recognised by its "rounds" member
+	var s Session
+	if _, err := vstat.LoadReplay(p, &s); err == nil && s.Rounds != nil {
+		info, v := RunSession(s)
+		vstat.For(prop).Report(t, "TestReplay", s, v)
+		recordSession(s, info)
+		return
 	}
 	var c Case
 	if _, err := vstat.LoadReplay(p, &c); err != nil {
